@@ -228,6 +228,29 @@ func c05Gen(tier string, seed int64) []core.Case {
 			k++
 		}
 	}
+	// slow starters: every honest party's Start is held back as long as anything else can happen, so the last one to start
+	// has the whole first round (with the altered message) in its store and meets the fault in the catch-up loop of
+	// Start rather than in an update
+	for _, sc := range faultSessions(tier) {
+		seenType := map[string]bool{}
+		for _, fi := range staticFields[sc.proto] {
+			sp := sim.SpecOf(sc.proto, fi.Type)
+			if sp == nil || sp.Round != 1 || (seenType[fi.Type+"."+fi.Field] && tier != "thorough") {
+				continue
+			}
+			seenType[fi.Type+"."+fi.Field] = true
+			ix := ""
+			if fi.Repeated {
+				ix = "first"
+			}
+			f := faultSpec{fi.Type, fi.Field, ix, []string{"+1", "random"}[k%2], poss[k%3], false, ""}
+			p := f.P(sc.P())
+			p["sched"] = "slow-starters"
+			id := fmt.Sprintf("%s/slow-starters/%s", sc.proto, f.String())
+			cs = append(cs, core.Case{ID: id, Class: id, Kind: "field", P: p, Cost: sc.cost})
+			k++
+		}
+	}
 	// equivocation over time: after an honest party has moved on to a later round, the deviator sends it an earlier-round
 	// message once more with one field altered (stores are keyed by sender and type, so the copy overwrites the original)
 	for _, sc := range faultSessions(tier) {
@@ -287,8 +310,11 @@ func c05Gen(tier string, seed int64) []core.Case {
 
 // culpritSet returns the node names an error blames.
 func culpritNamesOf(w *sim.World, reporter *sim.Node, errIdx int) []string {
+	return culpritNamesOfErr(w, reporter.Errors[errIdx])
+}
+
+func culpritNamesOfErr(w *sim.World, e *tss.Error) []string {
 	var out []string
-	e := reporter.Errors[errIdx]
 	for _, c := range e.Culprits() {
 		found := "?"
 		if c != nil {
@@ -363,7 +389,11 @@ func c05Run(c core.Case, env *core.Env) core.Result {
 		fr, err = runWrongSecret(s, c.P.Str("fpos"))
 		f = faultSpec{Type: "(input)", Field: "Xi", How: "wrong-secret", Pos: c.P.Str("fpos")}
 	default:
-		fr, err = runFault(s, f, "fifo")
+		sched := c.P.Str("sched")
+		if sched == "" {
+			sched = "fifo"
+		}
+		fr, err = runFault(s, f, sched)
 	}
 	if err != nil {
 		r.Inconcl("cannot run: %v", err)
@@ -437,32 +467,33 @@ func c05Oracle(r *core.Result, fr *faultRun, f faultSpec) {
 		if n == D {
 			continue
 		}
-		all := n.Errors
+		// an error returned by Start (a slow starter that catches up on messages delivered before its Start) counts like
+		// one returned by an update
+		all := append([]*tss.Error{}, n.Errors...)
 		if n.StartErr != nil {
 			all = append(all, n.StartErr)
 		}
-		for i := range n.Errors {
+		for _, e := range all {
 			errCount++
 			r.Count("honest_errors_checked", 1)
-			names := culpritNamesOf(w, n, i)
+			names := culpritNamesOfErr(w, e)
 			ok := true
 			for _, nm := range names {
 				if nm != D.Name && nm != n.Name {
 					ok = false
 				}
 			}
-			site := fmt.Sprintf("%s/r%d:%s", s.Proto, n.Errors[i].Round(), core.SigClean(causeText(n.Errors[i].Cause())))
+			site := fmt.Sprintf("%s/r%d:%s", s.Proto, e.Round(), core.SigClean(causeText(e.Cause())))
 			if !ok {
-				r.Fail("blame:honest-party:"+site, "%s reports an error that blames %v; the deviating party is %s (fault %s; error: %s)", n.Name, names, D.Name, f, core.Clip(n.Errors[i].Error(), 200))
+				r.Fail("blame:honest-party:"+site, "%s reports an error that blames %v; the deviating party is %s (fault %s; error: %s)", n.Name, names, D.Name, f, core.Clip(e.Error(), 200))
 			}
 			if len(names) == 1 && names[0] == D.Name {
 				exact++
 			} else if covered && ok {
-				notExact = append(notExact, [2]string{"blame:not-exact:" + site, fmt.Sprintf("%s reports an error about a covered value but names %v instead of exactly %s (fault %s; error: %s)", n.Name, names, D.Name, f, core.Clip(n.Errors[i].Error(), 200))})
+				notExact = append(notExact, [2]string{"blame:not-exact:" + site, fmt.Sprintf("%s reports an error about a covered value but names %v instead of exactly %s (fault %s; error: %s)", n.Name, names, D.Name, f, core.Clip(e.Error(), 200))})
 			}
-			r.AddSet("abort_sites", fmt.Sprintf("%s r%d %s", n.Errors[i].Task(), n.Errors[i].Round(), core.SigClean(causeText(n.Errors[i].Cause()))))
+			r.AddSet("abort_sites", fmt.Sprintf("%s r%d %s", e.Task(), e.Round(), core.SigClean(causeText(e.Cause()))))
 		}
-		_ = all
 	}
 	// blaming an honest party is the graver finding and names the run; inexact blame (nobody / the reporter itself for a covered value) comes second
 	for _, ne := range notExact {
